@@ -69,6 +69,10 @@ func runC03(rc *RunCtx) (*Violation, error) {
 		return nil
 	})
 
+	// statement-level database faults: the k-th SQL statement of the operation fails
+	seams.InstallStatementFaults(func() *seams.Faults { return cur })
+	rc.OnCleanup(func() { seams.InstallStatementFaults(func() *seams.Faults { return nil }) })
+
 	nPrefix := 2 + g.Int(6)
 	nTested := 1 + g.Int(2)
 	if rc.Thorough() {
@@ -119,8 +123,12 @@ func runC03(rc *RunCtx) (*Violation, error) {
 			rc.Logf("under test: %s (%d fault sites)", op, len(sites))
 			for _, sc := range sites {
 				maxOcc := sc.Count
-				if maxOcc > 6 {
-					maxOcc = 6
+				limit := 6
+				if strings.HasPrefix(sc.Site, "sql.stmt") {
+					limit = 60 // every statement position of the operation
+				}
+				if maxOcc > limit {
+					maxOcc = limit
 				}
 				for occ := 1; occ <= maxOcc; occ++ {
 					dir, err := world.NewRunDir()
@@ -236,7 +244,7 @@ func partsInvariantNoEC(rc *RunCtx, w *world.World) error {
 func init() {
 	Register(&Scenario{
 		Prop: "C03", Name: "fault-every-site", Level: "fault_enumeration",
-		Rule: "a generated history prefix on a swarm-chosen stack, then 1-2 (thorough 2-4) operations under test: each is executed once normally while every fault site it reaches is recorded (each part-store call before/after its effect at every seam, BeginTx read/write, each pre-commit hook, the database commit, a mid-stream body read error), and re-executed once per (site, occurrence<=6) on a fork of the pre-operation state (copy of the durable files, second real instance) with an error injected exactly there; semantic failures (preconditions, bad offsets, invalid parts) come from the generator; oracle: an operation that returned an error leaves all buckets, objects, versions, tags, uploads and listings equal to the model before it; one that still succeeded leaves exactly its model result; every referenced part still exists; non-trivial = at least one injected fault fired",
+		Rule: "a generated history prefix on a swarm-chosen stack, then 1-2 (thorough 2-4) operations under test: each is executed once normally while every fault site it reaches is recorded (each part-store call before/after its effect at every seam, BeginTx read/write, EVERY SQL statement position of the operation (exec and query, through a one-hook copy of the otelsql driver wrapper), each pre-commit hook, the database commit incl. a COMMIT that itself fails, a mid-stream body read error), and re-executed once per (site, occurrence<=6) on a fork of the pre-operation state (copy of the durable files, second real instance) with an error injected exactly there; semantic failures (preconditions, bad offsets, invalid parts) come from the generator; oracle: an operation that returned an error leaves all buckets, objects, versions, tags, uploads and listings equal to the model before it; one that still succeeded leaves exactly its model result; every referenced part still exists; non-trivial = at least one injected fault fired",
 		Real: realStack,
 		Run:  runC03,
 	})
